@@ -16,6 +16,7 @@ ID = 'C18'
 COQ_IMPORTS = ['C18_Model', 'C18_Heap']
 GENERATORS = ['gen_attr_reserved']
 DISAGREEMENT_IS_TIE_ONLY = False
+NO_SHRINK_KEYS = ['mapkind', 'obj', 'how', 'mk', 'sub', 'data']
 
 # ----------------------------------------------------------------------------- literals
 
@@ -83,8 +84,47 @@ def coq_path(p):
 
 # ----------------------------------------------------------------------------- typed snapshot of metadata values
 
+MAPKINDS = ['dict', 'OrderedDict', 'defaultdict', 'UserDict', 'ChainMap', 'mappingproxy']
+
+
+def make_mapping(kind, d):
+    """the same items as the dict d, as another kind of collections.abc.Mapping"""
+    import collections, types
+    if kind == 'dict':
+        return d
+    if kind == 'OrderedDict':
+        return collections.OrderedDict(d)
+    if kind == 'defaultdict':
+        return collections.defaultdict(list, d)
+    if kind == 'UserDict':
+        return collections.UserDict(d)
+    if kind == 'ChainMap':
+        return collections.ChainMap(d)
+    if kind == 'mappingproxy':
+        return types.MappingProxyType(d)
+    if kind == 'Attr':
+        from sugar.core.meta import Attr
+        return Attr(d)
+    if kind == 'Meta':
+        from sugar.core.meta import Meta
+        return Meta(d)
+    raise ValueError(kind)
+
+
+def wrap_kind(j, kind, depth=0):
+    """JSON literal -> Python value whose mapping nodes (outside lists) are of the given kind ('mix': varies by depth).
+    The Coq model has ONE kind of non-Attr mapping literal: that every Mapping is treated like a dict IS the law."""
+    if kind in (None, 'dict'):
+        return j
+    if isinstance(j, dict):
+        k = MAPKINDS[1 + (depth + len(j)) % (len(MAPKINDS) - 1)] if kind == 'mix' else kind
+        return make_mapping(k, {a: wrap_kind(b, kind, depth + 1) for a, b in j.items()})
+    return j          # lists keep plain content: Attr does not convert inside lists, and list elements are edited as dicts
+
+
 def msnap(o, _path=()):
     """['M'|'A'|'D', [k, v], ...] / ['L', ...] / scalar -- the same shape as enc in C18_Model.v"""
+    import collections.abc
     from sugar.core.meta import Attr, Meta
     if o is None or isinstance(o, (bool, int, str)):
         return o
@@ -95,7 +135,7 @@ def msnap(o, _path=()):
         return ['M'] + [[k, msnap(v, _path)] for k, v in vars(o).items()]
     if isinstance(o, Attr):
         return ['A'] + [[k, msnap(v, _path)] for k, v in vars(o).items()]
-    if isinstance(o, dict):
+    if isinstance(o, collections.abc.Mapping):        # any mapping that is not an Attr is a "plain dict" for the model
         return ['D'] + [[k, msnap(v, _path)] for k, v in o.items()]
     if isinstance(o, list):
         return ['L'] + [msnap(v, _path) for v in o]
@@ -106,8 +146,9 @@ def msnap(o, _path=()):
 
 def to_plain(o):
     """independent recursive dict view"""
+    import collections.abc
     from sugar.core.meta import Attr
-    if isinstance(o, (Attr, dict)):
+    if isinstance(o, collections.abc.Mapping):
         return {k: to_plain(v) for k, v in (vars(o) if isinstance(o, Attr) else o).items()}
     if isinstance(o, list):
         return [to_plain(v) for v in o]
@@ -216,7 +257,10 @@ def gen_attr_case(rng, nops, p_res=0.0):
             op = [name, p]
         ops.append(op)
         shadow_apply(sh, op)
-    return {'kind': 'attr', 'd': d, 'ops': ops}
+    c = {'kind': 'attr', 'd': d, 'ops': ops}
+    if rng.random() < 0.5:
+        c['mapkind'] = rng.choice(MAPKINDS[1:] + ['mix', 'mix'])
+    return c
 
 
 def nav(o, p):
@@ -225,8 +269,13 @@ def nav(o, p):
     return o
 
 
-def attr_do(root, op):
+def attr_do(root, op, mapkind=None):
     name, p = op[0], op[1]
+    keypath = not any(isinstance(e, int) for e in p)
+
+    def fresh(j, _f=globals()['fresh']):
+        # the target of an int-free path is an Attr (an Attr never holds a plain dict), so any Mapping kind must be converted
+        return wrap_kind(_f(j), mapkind) if keypath and name in ('setitem', 'setattr', 'setdefault', 'update', 'get', 'eq') else _f(j)
     t = nav(root, p)
     if name == 'setitem':
         t[op[2]] = fresh(op[3])
@@ -284,11 +333,12 @@ def attr_do(root, op):
 def impl_attr(case):
     from sugar.core.meta import Meta
     import framework as F
-    x = Meta(fresh(case['d']))
+    mk = case.get('mapkind')
+    x = Meta(wrap_kind(fresh(case['d']), mk))
     res = []
     for op in case['ops']:
         try:
-            res.append(attr_do(x, op))
+            res.append(attr_do(x, op, mk))
         except AssertionError:
             raise
         except Exception as e:
@@ -505,6 +555,8 @@ def impl(case):
         return impl_attr(case)
     if case['kind'] == 'heap':
         return impl_heap(case)
+    if case['kind'] == 'history' and case.get('locmeta_nested'):
+        return locmeta_nested_check()
     if case['kind'] == 'history':
         import random as _random
         why, trace = run_history(_random.Random(case['seed']), case['obj'], case['nops'], {})
@@ -514,6 +566,10 @@ def impl(case):
         return rewrap_checks(_random.Random(case['seed']), {})
     if case['kind'] == 'f20':
         return f20_probe(case['key'])
+    if case['kind'] == 'pure':
+        return impl_pure(case)
+    if case['kind'] == 'mapkind':
+        return impl_mapkind(case)
     raise ValueError(case['kind'])
 
 
@@ -565,7 +621,7 @@ def nontrivial(case, got):
 def histkey(case, got):
     ks = ['kind=' + case['kind'], 'nops=%d' % len(case.get('ops', []))]
     if case['kind'] == 'attr':
-        ks += ['op=' + o[0] for o in case['ops']]
+        ks += ['op=' + o[0] for o in case['ops']] + ['mapkind=' + str(case.get('mapkind', 'dict'))]
     if case['kind'] == 'heap':
         ks += ['hop=' + o[0] for o in case['ops']]
     if case['kind'] in ('attr', 'heap'):
@@ -718,7 +774,11 @@ def shallow(o):
 def r_data(rng, lo=0, hi=24):
     n = rng.randint(lo, hi)
     alpha = 'ACGT' if rng.random() < 0.7 else 'ACGT-N'
-    return ''.join(rng.choice(alpha) for _ in range(n))
+    d = ''.join(rng.choice(alpha) for _ in range(n))
+    if rng.random() < 0.4:        # reverse complements of stop / start codons: hits on the backward strand
+        i = rng.randint(0, len(d))
+        d = d[:i] + rng.choice(['TTA', 'CTA', 'TCA', 'CAT', 'CATTTA']) + d[i:]
+    return d
 
 
 def r_metalit(rng, depth=2):
@@ -849,6 +909,12 @@ op('seq', 'pure', 'radd')(lambda rng, s, c: 'ACG' + s)
 op('seq', 'pure', 'match')(lambda rng, s, c: s.match(rng.choice(['A.G', 'AC', 'T'])))
 op('seq', 'pure', 'matchall')(lambda rng, s, c: s.matchall('A', rf='both'))
 op('seq', 'pure', 'find_orfs')(lambda rng, s, c: s.find_orfs(rf='both', need_start='never', need_stop=False))
+op('seq', 'pure', 'match_rf')(lambda rng, s, c: s.match(rng.choice(PURE_SUBS), rf=_rf(rng.choice(PURE_RFS)), matchall=rng.random() < 0.4))
+op('seq', 'pure', 'match_rf_bwd')(lambda rng, s, c: s.match(rng.choice(['stop', 'start', 'A', 'T']), rf=_rf(rng.choice(PURE_RFS[1:3] + PURE_RFS[6:]))))
+op('seq', 'pure', 'matchall_rf')(lambda rng, s, c: s.matchall(rng.choice(PURE_SUBS), rf=_rf(rng.choice(PURE_RFS))))
+op('seq', 'pure', 'find_orfs_rf')(lambda rng, s, c: s.find_orfs(rf=_rf(rng.choice(PURE_RFS)), need_start=rng.choice(['always', 'once', 'never']),
+                                                               need_stop=rng.random() < 0.5))
+op('seq', 'pure', 'copy_chain')(lambda rng, s, c: s.copy().rc().complement().reverse().str.lower())
 op('seq', 'pure', 'copy')(lambda rng, s, c: s.copy())
 op('seq', 'pure', 'text')(lambda rng, s, c: (str(s), repr(s), s.tostr(), s.tofmtstr('fasta'), s.countall(), s.gc, len(s),
                                               s == c.fresh_seq(), s.str.find('A'), s.str.count('A'), s.str.split('A')) and None)
@@ -954,6 +1020,12 @@ op('basket', 'pure', 'sl_update_fts')(lambda rng, b, c: b.sl(update_fts=True)[:,
 for _n in ('add', 'and_', 'or_', 'sub', 'xor'):
     op('basket', 'pure', _n)(lambda rng, b, c, _n=_n: getattr(_op, _n)(b, rng.choice([_sub(rng, b), c.fresh_basket()])))
 op('basket', 'pure', 'filter')(lambda rng, b, c: b.filter(len_gt=rng.randint(0, 8)))
+op('basket', 'pure', 'match_rf')(lambda rng, b, c: b.match(rng.choice(PURE_SUBS), rf=_rf(rng.choice(PURE_RFS)), matchall=rng.random() < 0.4))
+op('basket', 'pure', 'match_rf_bwd')(lambda rng, b, c: b.match(rng.choice(['stop', 'start', 'A', 'T']), rf=_rf(rng.choice(PURE_RFS[1:3] + PURE_RFS[6:]))))
+op('basket', 'pure', 'matchall_rf')(lambda rng, b, c: b.matchall(rng.choice(PURE_SUBS), rf=_rf(rng.choice(PURE_RFS))))
+op('basket', 'pure', 'find_orfs_rf')(lambda rng, b, c: b.find_orfs(rf=_rf(rng.choice(PURE_RFS)), need_start=rng.choice(['always', 'once', 'never']),
+                                                                  need_stop=rng.random() < 0.5))
+op('basket', 'pure', 'copy_chain')(lambda rng, b, c: b.copy().rc().translate(complete=True))
 op('basket', 'pure', 'copy')(lambda rng, b, c: b.copy())
 op('basket', 'pure', 'fts')(lambda rng, b, c: b.fts)
 op('basket', 'pure', 'todict')(lambda rng, b, c: list(b.todict().values()))
@@ -1206,6 +1278,214 @@ def _rewrap_checks(rng, cov, out):
     return out
 
 
+# ---- deterministic matrices (replayable cases of kind 'pure' and 'mapkind') ---------------------------------------
+
+PURE_DATA = ['CCCTTACCCCATGGGTTT',      # fwd: ATG; bwd strand AAACCCATGGGGTAAGGG: start and stop on the backward strand only
+             'ATGAAATAGCC', 'GGCTATTTCAT', 'CCC-TTA-CCCCAT', 'TTATTACATCAT', 'ACGT', '']
+PURE_RFS = ['fwd', 'bwd', 'both', 0, 1, 2, -1, -2, -3, [0, 1], [-1, -3], [0, -2], [-1, -2, -3]]
+PURE_SUBS = ['start', 'stop', 'TAA', 'GGGG', 'AAAAAAA', 'A']
+
+
+def _rf(rf):
+    return tuple(rf) if isinstance(rf, list) else rf
+
+
+def impl_pure(case):
+    """one documented-as-not-in-place call; returns None or what changed.  The operand is snapshotted deeply (light: lazily
+    created empty containers are not a change) before and after, whether or not the call raises."""
+    from sugar import BioSeq, BioBasket
+    def mk(i, data):
+        q = BioSeq(data, id='s%d' % i, meta={'note': {'k': [1, {'z': 2}]}})
+        if len(data) >= 6:
+            q.fts = [c_feature(i, len(data))]
+        return q
+    if case['obj'] == 'seq':
+        o = mk(1, case['data'][0])
+    else:
+        o = BioBasket([mk(i, d) for i, d in enumerate(case['data'])], meta={'b': {'c': 1}})
+    before = dsnap(o, light=True)
+    call = case['call']
+    try:
+        if call == 'match':
+            o.match(case['sub'], rf=_rf(case['rf']), matchall=case['matchall'])
+        elif call == 'matchall':
+            o.matchall(case['sub'], rf=_rf(case['rf']))
+        elif call == 'find_orfs':
+            o.find_orfs(rf=_rf(case['rf']), need_start=case.get('need_start', 'always'), need_stop=case.get('need_stop', True))
+        elif call == 'slice_rc':       # slicing by a minus-strand location reverse-complements the SLICE, never the operand
+            from sugar.core.fts import Location
+            o[Location(1, max(len(o) - 1, 2), '-')]
+        elif call == 'copy_rc':
+            o.copy().rc().complement().reverse()
+        elif call == 'copy_translate':
+            o.copy().translate(complete=True)
+        elif call == 'countall':
+            o.countall()
+        elif call == 'tostr':
+            str(o), repr(o), o.tostr()
+        else:
+            raise RuntimeError(call)
+    except RuntimeError:
+        raise
+    except Exception:
+        pass
+    after = dsnap(o, light=True)
+    if after != before:
+        def res(x):
+            return x.data if case['obj'] == 'seq' else [q.data for q in x]
+        return '%s.%s(%s) is documented as not in-place but changed its operand; residues now %r' % (
+            case['obj'], call, ', '.join('%s=%r' % (k, case[k]) for k in ('sub', 'rf', 'matchall') if k in case), res(o))
+    return None
+
+
+def c_feature(i, L):
+    from sugar.core.fts import Feature, Location
+    return Feature('cds', [Location(0, 3, '+', meta={'g': {'phase': 0}}), Location(3, L, '+')], meta={'seqid': 's%d' % i, 'name': 'f'})
+
+
+def locmeta_nested_check():
+    """copy() of FeatureList / BioSeq / BioBasket isolates NESTED location metadata (depth >= 2), both directions"""
+    from sugar import BioSeq, BioBasket
+    from sugar.core.fts import Feature, FeatureList, Location
+    def mk():
+        l1 = Location(0, 9, '+', meta={'_gff': {'phase': 0, 'deep': {'x': [1]}}, 'tags': ['a', {'t': 1}]})
+        l2 = Location(12, 21, '+', meta={'_gff': {'phase': 1}})
+        return FeatureList([Feature('gene', start=0, stop=30, meta={'seqid': 's1'}), Feature('CDS', [l1, l2], meta={'seqid': 's1'})])
+    for name in ('FeatureList', 'BioSeq', 'BioBasket'):
+        x = mk()
+        if name != 'FeatureList':
+            q = BioSeq('A' * 30, id='s1')
+            q.fts = x
+            x = q if name == 'BioSeq' else BioBasket([q])
+        get = lambda o: (o if name == 'FeatureList' else o.fts if name == 'BioSeq' else o[0].fts)[1].locs[0].meta
+        for a, b in ((0, 1), (1, 0)):
+            pair = [x, x.copy()]
+            before = dsnap(pair[b])
+            m = get(pair[a])
+            m._gff.phase = 2
+            m._gff.deep.x.append(5)
+            m.tags[1]['t'] = 9
+            m.tags.append('c')
+            if dsnap(pair[b]) != before:
+                return '%s.copy(): a nested edit of location metadata on %s changed %s' % (
+                    name, 'the copy' if a else 'the original', 'the original' if a else 'the copy')
+    return None
+
+
+def pure_matrix(tier):
+    cases = []
+    for obj, datas in (('seq', [[d] for d in PURE_DATA]), ('basket', [['CCCTTACCC', 'GGGTCAGGG'], PURE_DATA[:3], ['ACGT']])):
+        for data in datas:
+            for rf in PURE_RFS:
+                for sub in PURE_SUBS:
+                    for ma in (False, True):
+                        cases.append({'kind': 'pure', 'obj': obj, 'data': data, 'call': 'match', 'sub': sub, 'rf': rf, 'matchall': ma})
+                    cases.append({'kind': 'pure', 'obj': obj, 'data': data, 'call': 'matchall', 'sub': sub, 'rf': rf})
+                for ns in ('always', 'once', 'never'):
+                    cases.append({'kind': 'pure', 'obj': obj, 'data': data, 'call': 'find_orfs', 'rf': rf, 'need_start': ns,
+                                  'need_stop': ns != 'never'})
+            for call in ('copy_rc', 'copy_translate', 'countall', 'tostr') + (('slice_rc',) if obj == 'seq' else ()):
+                cases.append({'kind': 'pure', 'obj': obj, 'data': data, 'call': call})
+    return cases
+
+
+MAPKIND_HOWS = ['init', 'init_kw', 'setitem', 'setattr', 'update', 'update_kind', 'setdefault', 'nested_set', 'BioSeq', 'BioBasket',
+                'Feature', 'Location', 'seq_meta_set']
+
+
+def impl_mapkind(case):
+    """a nested mapping of the given kind enters a metadata object through one entry path; it must be converted recursively
+    (Attr at every mapping level, attribute access = key access), compare equal to the equivalent dict, and copy() must isolate"""
+    from sugar import BioSeq, BioBasket
+    from sugar.core.fts import Feature, Location
+    from sugar.core.meta import Attr, Meta
+    kind, how, down = case['mk'], case['how'], case.get('down', 0)
+    inner = {'b': 1, 'c': {'d': 2, 'e': [1, {'f': 3}]}}
+    expected = fresh(inner)
+    value = wrap_kind(fresh(inner), kind) if kind not in ('Attr', 'Meta') else make_mapping(kind, fresh(inner))
+    for _ in range(down):                       # one or two levels down inside another mapping
+        value = {'w': value}
+        expected = {'w': expected}
+    if down and case.get('outer'):
+        value = make_mapping(case['outer'], value)
+    try:
+        if how == 'init':
+            m = Meta({'a': value})
+        elif how == 'init_kw':
+            m = Attr(a=value)
+        elif how == 'setitem':
+            m = Meta(); m['a'] = value
+        elif how == 'setattr':
+            m = Attr(); m.a = value
+        elif how == 'update':
+            m = Attr(); m.update({'a': value})
+        elif how == 'update_kind':              # the argument of update() itself is a non-dict mapping
+            m = Meta(); m.update(make_mapping(kind if kind not in ('Attr', 'Meta', 'mix') else 'UserDict', {'a': value}))
+        elif how == 'setdefault':
+            m = Meta(); m.setdefault('a', value)
+        elif how == 'nested_set':
+            m = Meta({'n': {'o': {}}}); m.n.o.a = value; m = m.n.o
+        elif how == 'BioSeq':
+            m = BioSeq('ACGT', id='x', meta={'a': value}).meta
+        elif how == 'BioBasket':
+            m = BioBasket([], meta={'a': value}).meta
+        elif how == 'Feature':
+            m = Feature('CDS', start=0, stop=3, meta={'a': value}).meta
+        elif how == 'Location':
+            m = Location(0, 3, meta={'a': value}).meta
+        elif how == 'seq_meta_set':
+            q = BioSeq('ACGT', id='x'); q.meta.a = value; m = q.meta
+        else:
+            raise RuntimeError(how)
+    except RuntimeError:
+        raise
+    except Exception as e:
+        return 'storing a nested %s raised %s: %s' % (kind, type(e).__name__, e)
+    try:
+        node, exp, path = m['a'], expected, 'a'
+        if kind in ('Attr', 'Meta') and not down and m['a'] is not value:
+            return 'an existing %s value was copied instead of being kept' % kind
+        steps = ['w'] * down + ['c']
+        for k in [None] + steps:
+            if k is not None:
+                if getattr(node, k) is not node[k]:
+                    return 'attribute and key access differ at %s.%s' % (path, k)
+                node, exp, path = node[k], exp[k], path + '.' + k
+            if not isinstance(node, Attr):
+                return 'nested %s at %s was stored as %s, expected Attr' % (kind, path, type(node).__name__)
+            if not (node == exp and exp == node):
+                return 'converted mapping at %s does not compare equal to the equivalent dict' % path
+        if node.d != 2 or node['e'][1] != {'f': 3} or isinstance(node.e[1], Attr):
+            return 'leaf values wrong below %s' % path
+        if to_plain(m)['a'] != expected or not (m['a'] == expected) or not (dict(m) == to_plain(m)):
+            return 'plain view differs from the equivalent dict'
+        before = to_plain(m)
+        m2 = m.copy()
+        tgt = m2.a
+        for k in steps:
+            tgt = tgt[k]
+        tgt.d = 99
+        tgt.new = {'x': {}}
+        if not isinstance(tgt.new.x, Attr):
+            return 'assignment after copy() did not convert'
+        del m2.a[(['w'] * down + ['b'])[0]]
+        if to_plain(m) != before:
+            return 'edit of the copy leaked into the original'
+    except Exception as e:
+        return 'nested %s via %s: %s: %s' % (kind, how, type(e).__name__, e)
+    return None
+
+
+def mapkind_matrix():
+    cases = []
+    for mk in MAPKINDS + ['mix', 'Attr', 'Meta']:
+        for how in MAPKIND_HOWS:
+            cases.append({'kind': 'mapkind', 'mk': mk, 'how': how, 'down': 0})
+            cases.append({'kind': 'mapkind', 'mk': mk, 'how': how, 'down': 1})
+            cases.append({'kind': 'mapkind', 'mk': mk, 'how': how, 'down': 2, 'outer': 'UserDict'})
+    return cases
+
+
 F20_WITNESS = {'kind': 'f20', 'reserved_key': True, 'key': 'items'}
 
 
@@ -1249,6 +1529,19 @@ def extra_checks(rng, tier, cov):
         for why in rewrap_checks(_random.Random(seed), cov):
             yield {'case': {'kind': 'rewrap', 'seed': seed}, 'impl': why, 'spec': why, 'noshrink': True, 'model': None, 'wf': True, 'evaluated': False}
             return
+    import framework as F
+    why = locmeta_nested_check()
+    if why:
+        yield {'case': {'kind': 'history', 'obj': 'fts', 'seed': 0, 'nops': 0, 'locmeta_nested': True}, 'impl': why, 'spec': why,
+               'noshrink': True, 'model': None, 'wf': True, 'evaluated': False}
+        return
+    for mat, name in ((pure_matrix(tier), 'pure_matrix_cases'), (mapkind_matrix(), 'mapkind_matrix_cases')):
+        cov[name] = len(mat)
+        for case in mat:
+            why = F.jcanon(F.run_impl(impl, case))
+            if why:
+                yield {'case': case, 'impl': why, 'spec': str(why), 'noshrink': True, 'model': None, 'wf': True, 'evaluated': False}
+                return
     # open finding F20: reported through known_findings.json while its witness still fails
     bad = [k for k in MAPPING_METHODS if f20_probe(k)]
     cov['f20_keys_failing'] = bad
